@@ -227,6 +227,11 @@ func runC19(r *Run, stratum string) *Violation {
 	// per key: incarnation in which a command answered MOVED/ASK was followed in place BEHIND later commands of the key
 	// (the first listed finding); what the order rules see on that key until the next restart is that finding's other end
 	followedBehind := map[string]int{}
+	firstKind := map[int]string{} // expected index -> the first refusal it got in the incarnation of redirectedInc
+	// per key: incarnation in which a command first answered TRYAGAIN was applied in place behind later commands of the
+	// key. The tool reports TRYAGAIN and restarts; a tree that sends the command again by itself is not covered by
+	// either listed finding, whatever the later answers were: the order rules speak plainly on that key
+	retriedInPlace := map[string]int{}
 	scan := func() {
 		for ; scanned < len(l.topo.Log); scanned++ {
 			e := l.topo.Log[scanned]
@@ -235,6 +240,9 @@ func runC19(r *Run, stratum string) *Violation {
 				if len(e.Args) > 0 {
 					if i, ok := expIdx[string(e.Args[len(e.Args)-1])]; ok {
 						redirected[i] = strings.Fields(e.Reply)[0]
+						if redirectedInc[i] != incarnation {
+							firstKind[i] = redirected[i]
+						}
 						redirectedInc[i] = incarnation
 					}
 				}
@@ -268,8 +276,12 @@ func runC19(r *Run, stratum string) *Violation {
 					lastPos[k] = maxPos[k]
 				}
 			}
-			if kind := redirected[i]; p <= lastPos[k] && !stable && (kind == "MOVED" || kind == "ASK") && redirectedInc[i] == incarnation {
-				followedBehind[k] = incarnation
+			if kind := firstKind[i]; p <= lastPos[k] && !stable && redirectedInc[i] == incarnation {
+				if kind == "MOVED" || kind == "ASK" {
+					followedBehind[k] = incarnation
+				} else if kind == "TRYAGAIN" {
+					retriedInPlace[k] = incarnation
+				}
 			}
 			if p > lastPos[k]+1 {
 				mi := perKey[k][lastPos[k]+1]
@@ -280,7 +292,10 @@ func runC19(r *Run, stratum string) *Violation {
 				// only keys of a slot that has been under migration are affected: a key whose slot never moved has one
 				// node, one ordered per-node pipeline, and no redirect to be overtaken at
 				kind, red := redirected[mi]
-				if !stable && kind != "TRYAGAIN" && (red || followedBehind[k] == incarnation || (cfg.Pipeline && migratedSlots[simredis.HashSlot([]byte(k))])) {
+				if redirectedInc[mi] == incarnation {
+					kind = firstKind[mi]
+				}
+				if !stable && kind != "TRYAGAIN" && retriedInPlace[k] != incarnation && (red || followedBehind[k] == incarnation || (cfg.Pipeline && migratedSlots[simredis.HashSlot([]byte(k))])) {
 					sig = "cluster target during slot migration: a redirected or stale-routed command was overtaken by a later, already pipelined command of the same key"
 				}
 				msg := fmt.Sprintf("key %q: [%s] executed (node %d) while its predecessor [%s] has not been executed since the last rewind (redirect seen for it: %q)", k, fmtCmd(e.Name, e.Args), e.Node, fmtCmd(missing.Name, missing.Args), redirected[mi])
@@ -603,7 +618,12 @@ func runC19(r *Run, stratum string) *Violation {
 				e := expected[perKey[k][lastPos[k]]]
 				n := expected[perKey[k][maxPos[k]]]
 				sig := "per-key order broken: a command took effect before its predecessor on the same key"
-				if kind := redirected[perKey[k][lastPos[k]]]; !stable && (kind == "MOVED" || kind == "ASK" || followedBehind[k] == incarnation) {
+				li := perKey[k][lastPos[k]]
+				kind := redirected[li]
+				if redirectedInc[li] == incarnation {
+					kind = firstKind[li]
+				}
+				if !stable && retriedInPlace[k] != incarnation && (kind == "MOVED" || kind == "ASK" || followedBehind[k] == incarnation) {
 					// the first listed finding seen from its other end: the redirected command was followed in place, behind
 					// later commands of its key (which ran first after a restart, where the order rule starts afresh)
 					sig = "cluster target during slot migration: a redirected or stale-routed command was overtaken by a later, already pipelined command of the same key"
